@@ -143,4 +143,72 @@ theorem setMatchN_cascade_frame (stepsOf : Heap → List (Step Val)) (src : Src 
               rw [ihfr j (by omega) hne, hd1 j hj]
         · exact triv _ hr (fun m hm => by simp only [Prod.mk.injEq] at hr; rw [← hr.2] at hm; simp at hm)
 
+theorem getPy?_of_normIndex (xs : List Val) (i : Int) (k : Nat) (h : normIndex xs.length i = some k) :
+    getPy? xs i = xs[k]? := by
+  unfold normIndex at h
+  unfold getPy?
+  split at h
+  · rename_i h0
+    split at h
+    · simp only [Option.some.injEq] at h; subst h; simp [h0]
+    · simp at h
+  · rename_i h0
+    split at h
+    · rename_i h1
+      simp only [Option.some.injEq] at h; subst h; simp [h0, h1]
+    · simp at h
+
+theorem get_of_some_lt (h : Heap) (id : Nat) (o : Obj) (hx : h[id]? = some o) : id < h.size := by
+  by_cases hl : id < h.size
+  · exact hl
+  · rw [Array.getElem?_eq_none (by omega)] at hx; simp at hx
+
+/-- **the written slot reads back**: after a successful `vertex.set`, applying the same last
+step to the same parent match in the new store finds the new match, holding `v` -/
+theorem vertexSet_reads_back (h h' : Heap) (s : Step Val) (pm m : MNode Val) (v : Val)
+    (hs : vertexSet h s pm v = .ok (h', m)) : singleOf (hview h') s pm = some m := by
+  unfold vertexSet at hs
+  split at hs
+  · rename_i k id hd
+    split at hs
+    · rename_i es he
+      simp only [Except.ok.injEq, Prod.mk.injEq] at hs
+      obtain ⟨h1, h2⟩ := hs
+      subst h1; subst h2
+      have hlt := get_of_some_lt h id _ he
+      simp [singleOf, hd, hview, hput_self h id _ hlt, dictSet_lookup_self]
+    · simp at hs
+  · rename_i i id hd
+    split at hs
+    · rename_i xs he
+      have hlt := get_of_some_lt h id _ he
+      split at hs
+      · rename_i xs' hl
+        simp only [Except.ok.injEq, Prod.mk.injEq] at hs
+        obtain ⟨h1, h2⟩ := hs
+        subst h1; subst h2
+        have hn : ∃ k, normIndex xs.length i = some k := by
+          unfold listSet at hl
+          cases hn : normIndex xs.length i with
+          | none => simp [hn] at hl
+          | some k => exact ⟨k, rfl⟩
+        obtain ⟨k, hk⟩ := hn
+        have hg := (listSet_get xs xs' i v k hl hk).1
+        have hlen := listSet_length xs xs' i v hl
+        have : getPy? xs' i = some v := by
+          rw [getPy?_of_normIndex xs' i k (by rw [hlen]; exact hk), hg]
+        simp [singleOf, hd, hview, hput_self h id _ hlt, this]
+      · split at hs
+        · rename_i hi
+          simp only [Except.ok.injEq, Prod.mk.injEq] at hs
+          obtain ⟨h1, h2⟩ := hs
+          subst h1; subst h2
+          have : getPy? (xs ++ [v]) i = some v := by
+            subst hi
+            simp [getPy?]
+          simp [singleOf, hd, hview, hput_self h id _ hlt, this]
+        · simp at hs
+    · simp at hs
+  · simp at hs
+
 end Treepath
